@@ -42,6 +42,7 @@ reg("C08", "h_c08")
 reg("C09", "h_c09")
 reg("C02", "h_c02")
 reg("C17", "h_c17")
+reg("C16", "h_c16")
 
 # quick / thorough wall-clock budgets per check (seconds); hitting one ends the run with exhaustive:false
 DEADLINE = {"quick": 150, "thorough": 1500}
